@@ -175,12 +175,42 @@ def _diff(a, b, names: dict, rnames: dict, out: list, in_msg=False) -> bool:
                 a._cnt = False
     if isinstance(b, ast.Name) and b.id.startswith("_any"):
         return True  # wildcard in the expected form: anything may stand here
+    # `np.sort(e)` / `sorted(e)` / `reversed(e)` / `np.unique(e)` where `e` is expected (or the other way round): the same values in
+    # another order (or without repetitions) -- a leaf, not another shape
+    for wrapped, plain, flip in ((a, b, False), (b, a, True)):
+        if isinstance(wrapped, ast.Call) and len(wrapped.args) >= 1 and not isinstance(plain, ast.Call) or \
+                (isinstance(wrapped, ast.Call) and isinstance(plain, ast.Call) and len(wrapped.args) >= 1 and ast.dump(wrapped.func) != ast.dump(plain.func)):
+            f = wrapped.func
+            nm = f.attr if isinstance(f, ast.Attribute) else (f.id if isinstance(f, ast.Name) else "")
+            if nm in ("sort", "sorted", "reversed", "flip", "unique", "flipud", "fliplr") and len(wrapped.args) == 1 and not wrapped.keywords:
+                n1, r1, o1 = dict(names), dict(rnames), []
+                ok = _diff(plain, wrapped.args[0], n1, r1, o1, in_msg) if flip else _diff(wrapped.args[0], plain, n1, r1, o1, in_msg)
+                if ok and not o1:
+                    names.update(n1); rnames.update(r1)
+                    out.append(("order", ast.unparse(a)[:60], ast.unparse(b)[:60]))
+                    return True
     if type(a) is not type(b):
         # operator nodes are leaves
         if isinstance(a, (ast.operator, ast.cmpop, ast.unaryop, ast.boolop)) and isinstance(b, type(a).__mro__[1]):
             out.append(("operator", type(a).__name__, type(b).__name__))
             return True
         # `x` against `x - 1` / `x + 1`: the same operand with a constant offset is a leaf (an off-by-one), not another shape
+        # `x is None` against `not x` (and `x is not None` against `x`): they differ for every falsy x that is not None
+        for none_t, truth_t in ((a, b), (b, a)):
+            if isinstance(none_t, ast.Compare) and len(none_t.ops) == 1 and isinstance(none_t.ops[0], (ast.Is, ast.IsNot)) \
+                    and isinstance(none_t.comparators[0], ast.Constant) and none_t.comparators[0].value is None:
+                want_not = isinstance(none_t.ops[0], ast.Is)
+                t = truth_t
+                if want_not and isinstance(t, ast.UnaryOp) and isinstance(t.op, ast.Not):
+                    t = t.operand
+                elif want_not:
+                    continue
+                n1, r1, o1 = dict(names), dict(rnames), []
+                ok = _diff(none_t.left, t, n1, r1, o1, in_msg) if none_t is a else _diff(t, none_t.left, n1, r1, o1, in_msg)
+                if ok and not o1:
+                    names.update(n1); rnames.update(r1)
+                    out.append(("none-test", ast.unparse(a)[:60], ast.unparse(b)[:60]))
+                    return True
         # a term more or less: `x + e` / `x - e` against `x` differ unless e is zero
         for with_off, plain, flip in ((a, b, False), (b, a, True)):
             if isinstance(with_off, ast.BinOp) and isinstance(with_off.op, (ast.Add, ast.Sub)) \
